@@ -232,6 +232,17 @@ class Frame:
                 return [(U(env), None)]
             if isinstance(st, ast.Assign):
                 out = []
+                if isinstance(st.value, (ast.BoolOp, ast.Compare)) or (isinstance(st.value, ast.UnaryOp) and isinstance(st.value.op, ast.Not)) or \
+                        (isinstance(st.value, ast.Call) and self.callee_short(st.value) in ('isinstance', 'isscalar')):
+                    # a dispatch decision kept in a local (both_unit = isinstance(..) and isinstance(..)): remember what is known
+                    try:
+                        c = self.cond(st.value, env)
+                    except Raise:
+                        c = None
+                    if c is not None and len(st.targets) == 1 and isinstance(st.targets[0], ast.Name):
+                        e2 = dict(U(env))
+                        e2[st.targets[0].id] = V('bool!true' if c else 'bool!false')
+                        return [(e2, None)]
                 vs = self.evals(st.value, env)
                 for (v, n) in vs:
                     e2 = dict(U(env))
@@ -404,6 +415,10 @@ class Frame:
             return None
         if isinstance(e, ast.Name):
             v = self.eval1(e, env)
+            if v.kind == 'bool!true':
+                return True
+            if v.kind == 'bool!false':
+                return False
             if v.kind == 'none':
                 return False
             if v.kind in ('obj',):
@@ -1292,6 +1307,12 @@ def run_r6(run, rule='R6'):
                     msg = ('must raise, and was rejected by type dispatch in the confirmed table, but the operand now '
                            'passes dispatch and reaches code that returns %s when its runtime shape/length tests '
                            'succeed' % '; '.join(rets))
+                if st == 'undecided' and exp[0] in ('obj', 'plain') and baseline.get(construct) == 'holds':
+                    # confirmed-table regression of a documented cell: every path used to return the documented class
+                    st = 'violation'
+                    msg = ('documented result %s, and every path returned it in the confirmed table, but now: %s (a path selected by '
+                           'runtime length / shape tests returns something else: single- and multi-valued operands are all in the quantifier)'
+                           % (exp[1] if exp[0] == 'obj' else 'plain value', msg))
                 method = resolved_method(I, op, lv, rv)
                 subj = 'operator-table'
                 detail = {'expected': exp[:-1], 'source': exp[-1], 'outcomes': [repr(o) for o in ocs], 'method': method}
